@@ -176,18 +176,19 @@ PROPS = {
     ),
     "C02": dict(
         generated=True,
-        lean=["GolibsVerif.Props.C02Spec", "GolibsVerif.Props.Lin", "GolibsVerif.Props.C03"],
+        lean=["GolibsVerif.Props.C02Spec", "GolibsVerif.Props.Lin", "GolibsVerif.Props.C03", "GolibsVerif.Props.C02Redis"],
         seq=[],
         go_cmds=("seq", "conc"),
         facts={"inmem.single_section_methods": ["CasByVersion", "Create", "Delete", "Get", "GetMany", "ListKeys", "Put", "PutMany"],
                "inmem.other_methods": ["WaitForVersionChange"]},
         conc=[dict(comp="kvconc-inmem", driver="kvlin", decisive=lambda d: d["op"].startswith("mon C02")),
-              dict(comp="kvconc-redis", driver="kvlin", decisive=lambda d: d["op"].startswith("mon C02"))],
-        rule="cases = concurrent histories: 2-4 free-running threads x 2-5 operations over keys {a (75%), b} drawn from {Create, Get, Put, CasByVersion (with the version the thread saw last, or a never-issued one), Delete, GetMany with a repeated key, PutMany}, with staggered starts; in-memory: every operation's critical section is stamped by the instrumented lock and the section order is the linearization candidate; Redis (miniredis): a witness order is searched by the harness, plus 6 forced WATCH/EXEC races (a go-redis hook stops a CAS between its GET and its EXEC while another client writes); every history is emitted in witness order with invocation/response stamps and RE-VALIDATED by the Lean driver against Kv.Spec (real-time order + legality); non-trivial = two operations on one key overlapped in real time and one was a write; distinct by hash of the witness-ordered history",
+              dict(comp="kvconc-redis", driver="kvlin", decisive=lambda d: d["op"].startswith("mon C02")),
+              dict(comp="rediscmd", driver="redistrace", decisive=lambda d: d["op"].startswith("mon C02") or d["op"].startswith("ret "))],
+        rule="cases = concurrent histories: 2-4 free-running threads x 2-5 operations over keys {a (75%), b} drawn from {Create, Get, Put, CasByVersion (with the version the thread saw last, or a never-issued one), Delete, GetMany with a repeated key, PutMany}, with staggered starts; in-memory: every operation's critical section is stamped by the instrumented lock and the section order is the linearization candidate; Redis (miniredis): a witness order is searched by the harness, plus 6 forced WATCH/EXEC races (a go-redis hook stops a CAS between its GET and its EXEC while another client writes); every history is emitted in witness order with invocation/response stamps and RE-VALIDATED by the Lean driver against Kv.Spec (real-time order + legality); non-trivial = two operations on one key overlapped in real time and one was a write; distinct by hash of the witness-ordered history. Redis command level (component rediscmd): 2-4 clients x 1-4 operations; a go-redis hook parks EVERY Redis command (SETNX, GET, MGET, SET, MSET, DEL, WATCH, MULTI/SET/EXEC) of every client, the scheduler releases one at a time (random choices plus 5 directed schedules: Create's SETNX/GET/SETNX retry, CAS overtaken between GET and EXEC by Put / Delete / Delete+Create, two CAS on one version); every command with its reply and every result is replayed through RedisConc.step by the Lean driver; non-trivial = an operation was invoked while another client was in the middle of its commands",
         assumptions=["WaitForVersionChange is excluded here (C07)", "no expiries in the concurrent runs (expiry is C06)", "Redis: each single command is atomic and EXEC after WATCH fails iff the key changed (miniredis / Redis semantics)"],
         trusted=["modelled, not verified: sync.Mutex (a critical section is atomic and lies between the call's invocation and response), go-redis, miniredis", "skeleton fact regenerated from inmem.go: every exported method except WaitForVersionChange is `s.lock.Lock(); defer s.lock.Unlock()`",
                  "the witness search (Go transcription of the contract) is untrusted: the Lean driver validates every witness"],
-        explanation="LinThm.order_is_sequential / order_respects_real_time (any object whose operations take effect in one atomic step is linearizable in step order) + C03 refinements + C02 contract facts for all histories (fresh_versions, cas_same_version_at_most_once, racing_creators_one_winner, loser_changes_nothing). For Redis the multi-command operations (Create retry loop, CAS WATCH/EXEC retry loop) are covered by per-history Lean-validated witnesses, not by an unbounded theorem",
+        explanation="LinThm.order_is_sequential / order_respects_real_time (any object whose operations take effect in one atomic step is linearizable in step order) + C03 refinements + C02 contract facts for all histories (fresh_versions, cas_same_version_at_most_once, racing_creators_one_winner, loser_changes_nothing). For Redis: C02Redis.simulates / linearizable — the command-level concurrent model of redis.go (any number of clients, any interleaving of their commands, unboundedly many lost WATCH/EXEC races and Create retries) is a run of the atomic-step system over Kv.Spec, hence linearizable with the contract's results; exec_sees_what_get_saw (the WATCH invariant), lin_once, ret_is_lin_result; the model is tied to redis.go + go-redis + miniredis by the command-level trace replay; free-running histories additionally get per-history Lean-validated witnesses",
     ),
     "C07": dict(
         lean=["GolibsVerif.Props.C07", "GolibsVerif.Props.C07Exec"],
@@ -249,7 +250,7 @@ MANIFEST_TEXT.update({
     "C13": _t("Lean proofs on a transition system of the dispatcher's worker pool (watcher loop decisions, wake tokens, spawn/exit, discrete time): the watcher counter is exact, whenever a future is pending some watcher is responsible for it (awake, sleeping no longer than until its fire time, or about to receive a wake token) so a due future can always be served, a Call with no watcher starts one, a due backlog spawns, idle watchers exit; tied to the code by replaying real executions of the dispatcher under a virtual clock with harness-controlled timers through the executable model (proved sound). Lateness bounds and eventual firing rest on fair scheduling (not mechanised)", "Lean 4 invariant/enabledness proofs over a transition system + trace refinement of real executions under a virtual clock"),
     "C09": _t("Lean proofs on the N-caller transition system of ecache.go: single-flight (at most one creation per key in progress, in-flight table exact), size <= capacity, step-wise forward simulation to the sequential LRU model (results, evictions and callbacks of each linearization point equal the sequential operation's), exact accounting of created/deleted/resident/unpublished values; tied to the code by replaying real executions (instrumented critical sections, gated create function, delete callbacks) through the executable model, proved sound w.r.t. the step relation", "Lean 4 invariant + forward-simulation proofs over an N-process transition system + trace refinement of real executions"),
     "C07": _t("Lean proofs on a small-step model of inmem's WaitForVersionChange + mutators (any number of waiters, keys, writers): verdict soundness, no lost wake-up (a waiter parked on an open channel implies the record still has the awaited version and the channel is the key's current waiter record), exact waiter counts, empty table when nobody waits, isolation of a cancelling waiter; tied to the code by replaying the real critical sections (instrumented lock + goroutine attribution + table snapshots) through the executable model, proved sound w.r.t. the step relation", "Lean 4 inductive-invariant proofs over a small-step model + trace refinement of real critical sections"),
-    "C02": _t("Lean: generic theorem that an object whose operations each take effect in one atomic step is linearizable in step order (real-time respecting, sequentially legal), contract theorems for all histories (fresh versions, at most one CAS winner per version, one winning creator, losers change nothing); in-memory backend: regenerated skeleton fact (each method = one lock region) + instrumented critical-section order replayed by the Lean driver; Redis: every explored concurrent history gets a linearization witness that the Lean driver validates against the contract, incl. forced WATCH/EXEC races. Unbounded for the in-memory backend; per-history certification for the Redis multi-command operations", "Lean 4 linearizability theorem for atomic-step objects + contract proofs + Lean-validated linearization witnesses of real concurrent histories"),
+    "C02": _t("Lean: generic theorem that an object whose operations each take effect in one atomic step is linearizable in step order (real-time respecting, sequentially legal); contract theorems for all histories (fresh versions, at most one CAS winner per version, one winning creator, losers change nothing); in-memory backend: regenerated skeleton fact (each method = one lock region) + instrumented critical-section order replayed by the Lean driver; Redis backend: theorem C02Redis.linearizable — the command-level concurrent model of redis.go (any number of clients, any interleaving of SETNX/GET/SET/MSET/MGET/DEL/WATCH/MULTI-EXEC, unboundedly many lost races and retries) refines the atomic-step system over the contract — tied to redis.go + go-redis + miniredis by replaying real command-level executions (every command parked and released one at a time by a go-redis hook) through the model; free-running Redis histories additionally get a Lean-validated linearization witness. No expiries in the concurrent runs", "Lean 4 linearizability proofs (generic atomic-step theorem + forward simulation of the Redis command-level model) + trace refinement of real command-level executions"),
     "C20": _t("Lean proof on a lexical path / small file-system model that UnzipToFolder creates files and directories only inside the destination for ANY archive, and that ZipFolder∘UnzipToFolder reproduces exactly the selected files (path and content); tied to files.go by a differential run on a sandboxed real file system (hostile archives, random trees, all filter/recursive/spelling combinations) with Go-side confinement and round-trip monitors", "Lean 4 proofs over a path/file-system model + model/code correspondence on the real file system"),
     "C01": _t("Lean proof of mutual exclusion for the N-process transition system of kvlock.go (any number of goroutines/Lockers/providers, every interleaving at storage-call granularity, cancellation anywhere, unbounded request-lost/reply-lost faults) under the explicit lease assumption; tied to the code by trace refinement: real kvsLock goroutines run under a controlled scheduler and every recorded trace is replayed through the executable model, which is proved sound w.r.t. the transition relation (C01Exec)", "Lean 4 inductive-invariant proof over an N-process transition system + trace refinement of real executions"),
     "C04": _t("Lean proofs on fault-free runs: no residue at quiescence, token/counter exact, no orphan record, deadlock freedom (some caller inside a call can always move when nobody holds), hand-off enabledness, no acquisition after shutdown, failure paths restore the Locker; tie as C01 plus Go-side residue / stuck monitors. Eventual service of every caller rests on a fairness assumption (not mechanised)", "Lean 4 invariant + enabledness proofs + trace refinement of real executions"),
